@@ -42,11 +42,15 @@ Pr(id, e) == [k |-> "print", id |-> id, e |-> e, dirs |-> <<>>]
 \* append that does not copy first would write
 D3 == <<[name |-> "escapeHtml", args |-> <<>>], [name |-> "id", args |-> <<>>], [name |-> "noAutoescape", args |-> <<>>]>>
 Pr3(id, e) == [k |-> "print", id |-> id, e |-> e, dirs |-> D3]
+\* a marker directive FOLLOWED by another one: a JavaScript generator that
+\* filters the node's list in place would overwrite the marker
+DM == <<[name |-> "noAutoescape", args |-> <<>>], [name |-> "truncate", args |-> <<[k |-> "int", v |-> 30]>>]>>
+PrM(id, e) == [k |-> "print", id |-> id, e |-> e, dirs |-> DM]
 NoBody == [has |-> FALSE, body |-> <<>>]
 P1(n) == <<[name |-> n, opt |-> FALSE]>>
 
 One == [params |-> <<[name |-> "x", opt |-> FALSE], [name |-> "w", opt |-> TRUE]>>, nsa |-> "", ta |-> "",
-        body |-> <<Pr("q1", Var("x")), Pr3("q2", Var("x")),
+        body |-> <<PrM("q1", Var("x")), Pr3("q2", Var("x")),
                    Pr("q6", [k |-> "elvis", a |-> Var("w"), b |-> [k |-> "str", v |-> "-"]])>>]
 Two == [params |-> P1("xs"), nsa |-> "", ta |-> "",
         body |-> <<[k |-> "foreach", kw |-> "foreach", var |-> "i", e |-> Var("xs"),
@@ -86,7 +90,7 @@ Groups == IF GSize = 2
 
 TheCfg == IF CfgName = "oblig" THEN [oblig |-> <<"exclaim">>, dirs |-> {"exclaim"}, fns |-> NoFn] ELSE NoCfg
 
-Sh0 == [dirs |-> [id \in PrintIds |-> IF id = "q2" THEN D3 ELSE <<>>], memo |-> [x \in {} |-> <<>>]]
+Sh0 == [dirs |-> [id \in PrintIds |-> IF id = "q2" THEN D3 ELSE IF id = "q1" THEN DM ELSE <<>>], memo |-> [x \in {} |-> <<>>]]
 
 ProgOf(c) == [bundle |-> TheBundle, entry |-> Cases[c].t, data |-> DataSets[Cases[c].d], ij |-> NoIJ,
               glob |-> [x \in {} |-> Null], plan |-> [kind |-> "none"], cfg |-> TheCfg]
